@@ -315,6 +315,7 @@ type v1set struct {
 type v2set struct {
 	ldn   uint32
 	ts    uint64 // upper 28 bits
+	low   uint32 // low 32 bits of the clock reading assigned to Time: never emitted
 	clock uint8
 	ld    uint8
 	node  [6]byte
@@ -330,7 +331,7 @@ func randV1(rng *rand.Rand) v1set {
 }
 
 func randV2(rng *rand.Rand) v2set {
-	return v2set{ldn: rng.Uint32(), ts: rng.Uint64() & (1<<60 - 1) &^ 0xFFFFFFFF, clock: uint8(rng.UintN(16)), ld: uint8(rng.UintN(256)), node: randNode(rng)}
+	return v2set{low: rng.Uint32() * uint32(rng.UintN(2)), ldn: rng.Uint32() * uint32(1-rng.UintN(8)/7), ts: rng.Uint64() & (1<<60 - 1) &^ 0xFFFFFFFF, clock: uint8(rng.UintN(16)), ld: uint8(rng.UintN(256)), node: randNode(rng)}
 }
 
 func staleV1(sets []v1set, parsed []byte) {
@@ -399,14 +400,14 @@ func staleV2(sets []v2set, parsed []byte) {
 			how := "direct field assignment"
 			switch i % 3 {
 			case 0:
-				u.LocalDomainNumber, u.Time, u.Clock, u.LocalDomain, u.NodeID = s.ldn, s.ts, s.clock, s.ld, s.node
+				u.LocalDomainNumber, u.Time, u.Clock, u.LocalDomain, u.NodeID = s.ldn, s.ts|uint64(s.low), s.clock, s.ld, s.node
 			case 1:
 				how = "the setters"
 				u.SetLocalDomainNumber(s.ldn)
 				u.SetClock(s.clock)
 				u.SetLocalDomain(s.ld)
 				u.SetNodeID(s.node[:])
-				wsec, wnsec := refInstant(s.ts)
+				wsec, wnsec := refInstant(s.ts | uint64(s.low))
 				u.SetTime(time.Unix(wsec, wnsec))
 			case 2:
 				how = "SetLocalDomain/SetLocalDomainNumber only"
@@ -596,9 +597,9 @@ func stateMonitors() {
 		c := v1set{0, 0x0CD2, nodes[2]}
 		staleV1([]v1set{a, b, c, a}, nil)
 		staleV1([]v1set{b, a, c}, withVersion(published, 1))
-		a2 := v2set{0xFFFFFFFF, ts &^ 0xFFFFFFFF, 0xF, 0xFF, nodes[1]}
-		b2 := v2set{0, b.ts &^ 0xFFFFFFFF, 0, 0, nodes[0]}
-		c2 := v2set{1000, 0, 0xC, 0, nodes[2]}
+		a2 := v2set{0xFFFFFFFF, ts &^ 0xFFFFFFFF, uint32(ts), 0xF, 0xFF, nodes[1]}
+		b2 := v2set{0, b.ts &^ 0xFFFFFFFF, 0xFFFFFFFF, 0, 0, nodes[0]}
+		c2 := v2set{1000, 0, 0x12345678, 0xC, 0, nodes[2]}
 		staleV2([]v2set{a2, b2, c2, a2}, nil)
 		staleV2([]v2set{b2, a2, c2}, published)
 		r.Nontrivial(fmt.Sprintf("stale|b|%x", ts))
@@ -661,4 +662,149 @@ func stateMonitors() {
 	held.final()
 	r.Count("state_chain_values", len(chain)+n)
 	r.Count("held_outputs", held.n)
+}
+
+// ---------------------------------------------------------------------------------
+// setter sequences: one setter at a time, in any order, on one long-lived object. Each setter
+// changes its own field and nothing else, whatever the object held before (times go backwards
+// as well as forwards, a parsed value may come first).
+func setterSequences() {
+	n := r.Pick(6000, 120000)
+	for q := 0; q < n; q++ {
+		rng := r.Rand(fmt.Sprintf("setterseq|%d", q))
+		pickTS := func() uint64 {
+			switch rng.IntN(4) {
+			case 0:
+				return timeBoundaries[rng.IntN(len(timeBoundaries))] & (1<<60 - 1)
+			case 1:
+				return (rng.Uint64() & (1<<60 - 1)) >> uint(rng.IntN(60))
+			}
+			return rng.Uint64() & (1<<60 - 1)
+		}
+		// ---- version 1
+		{
+			var u uuid_v1.UUIDv1
+			m := v1set{}
+			var trace []string
+			if q%3 == 0 {
+				m = randV1(rng)
+				if _, err := u.Unmarshal(m.want()); err != nil {
+					continue
+				}
+				trace = append(trace, "Unmarshal("+canonUUID(m.want())+")")
+			} else {
+				u.UUID.Variant = 0x8
+			}
+			for step := 0; step < 2+rng.IntN(7); step++ {
+				switch rng.IntN(3) {
+				case 0:
+					m.ts = pickTS()
+					sec, nsec := refInstant(m.ts)
+					trace = append(trace, fmt.Sprintf("SetTime(%#x)", m.ts))
+					u.SetTime(time.Unix(sec, nsec))
+				case 1:
+					m.cseq = []uint16{0, 1, 0x0FFF, 0x0FFE, uint16(rng.UintN(1 << 12))}[rng.IntN(5)]
+					trace = append(trace, fmt.Sprintf("SetClockSequence(%#x)", m.cseq))
+					u.SetClockSequence(m.cseq)
+				default:
+					m.node = randNode(rng)
+					trace = append(trace, fmt.Sprintf("SetNodeID(%x)", m.node))
+					u.SetNodeID(m.node[:])
+				}
+				cs := map[string]any{"version": 1, "trace": append([]string{}, trace...)}
+				want := m.want()
+				var out []byte
+				var err error
+				var txt string
+				p, pv, st := mon.Guard(func() {
+					if step%2 == 0 {
+						txt = u.String()
+						out, err = u.Marshal()
+					} else {
+						out, err = u.Marshal()
+						txt = u.String()
+					}
+				})
+				ev(2)
+				switch {
+				case p:
+					r.Violation("uuid_v1.setters:panic", fmt.Sprintf("panic %v at %s", pv, mon.TopLibFrame(st)), cs)
+				case err != nil || !bytes.Equal(out, want):
+					r.Violation("uuid_v1.setters:sequence", fmt.Sprintf("after %s the value is %s, the fields set so far say %s", trace[len(trace)-1], canonUUID(out), canonUUID(want)), cs)
+				case txt != canonUUID(want):
+					r.Violation("uuid_v1.setters:sequence:text", fmt.Sprintf("after %s String() = %q, the fields set so far say %q", trace[len(trace)-1], txt, canonUUID(want)), cs)
+				case u.GetClockSequence() != m.cseq || !bytes.Equal(u.GetNodeID(), m.node[:]):
+					r.Violation("uuid_v1.setters:sequence:getters", fmt.Sprintf("after %s the getters give clock_seq %#x node %x, set were %#x %x", trace[len(trace)-1], u.GetClockSequence(), u.GetNodeID(), m.cseq, m.node), cs)
+				}
+			}
+		}
+		// ---- version 2
+		{
+			var u uuid_v2.UUIDv2
+			m := v2set{}
+			var trace []string
+			if q%3 == 1 {
+				m = randV2(rng)
+				m.low = 0
+				if _, err := u.Unmarshal(m.want()); err != nil {
+					continue
+				}
+				trace = append(trace, "Unmarshal("+canonUUID(m.want())+")")
+			} else {
+				u.UUID.Variant = 0x8
+			}
+			for step := 0; step < 2+rng.IntN(8); step++ {
+				switch rng.IntN(5) {
+				case 0:
+					full := pickTS()
+					m.ts, m.low = full&^0xFFFFFFFF, uint32(full)
+					sec, nsec := refInstant(full)
+					trace = append(trace, fmt.Sprintf("SetTime(%#x)", full))
+					u.SetTime(time.Unix(sec, nsec))
+				case 1:
+					m.clock = uint8(rng.UintN(16))
+					trace = append(trace, fmt.Sprintf("SetClock(%#x)", m.clock))
+					u.SetClock(m.clock)
+				case 2:
+					m.ld = uint8(rng.UintN(256))
+					trace = append(trace, fmt.Sprintf("SetLocalDomain(%#x)", m.ld))
+					u.SetLocalDomain(m.ld)
+				case 3:
+					m.ldn = []uint32{0, 1, 1000, 0xFFFFFFFF, rng.Uint32()}[rng.IntN(5)]
+					trace = append(trace, fmt.Sprintf("SetLocalDomainNumber(%#x)", m.ldn))
+					u.SetLocalDomainNumber(m.ldn)
+				default:
+					m.node = randNode(rng)
+					trace = append(trace, fmt.Sprintf("SetNodeID(%x)", m.node))
+					u.SetNodeID(m.node[:])
+				}
+				cs := map[string]any{"version": 2, "trace": append([]string{}, trace...)}
+				want := m.want()
+				var out []byte
+				var err error
+				var txt string
+				p, pv, st := mon.Guard(func() {
+					if step%2 == 0 {
+						txt = u.String()
+						out, err = u.Marshal()
+					} else {
+						out, err = u.Marshal()
+						txt = u.String()
+					}
+				})
+				ev(2)
+				switch {
+				case p:
+					r.Violation("uuid_v2.setters:panic", fmt.Sprintf("panic %v at %s", pv, mon.TopLibFrame(st)), cs)
+				case err != nil || !bytes.Equal(out, want):
+					r.Violation("uuid_v2.setters:sequence", fmt.Sprintf("after %s the value is %s, the fields set so far say %s", trace[len(trace)-1], canonUUID(out), canonUUID(want)), cs)
+				case txt != canonUUID(want):
+					r.Violation("uuid_v2.setters:sequence:text", fmt.Sprintf("after %s String() = %q, the fields set so far say %q", trace[len(trace)-1], txt, canonUUID(want)), cs)
+				case u.GetClock() != m.clock || u.GetLocalDomain() != m.ld || u.GetLocalDomainNumber() != m.ldn || !bytes.Equal(u.GetNodeID(), m.node[:]):
+					r.Violation("uuid_v2.setters:sequence:getters", fmt.Sprintf("after %s the getters give clock %#x domain %#x number %#x node %x, set were %#x %#x %#x %x", trace[len(trace)-1], u.GetClock(), u.GetLocalDomain(), u.GetLocalDomainNumber(), u.GetNodeID(), m.clock, m.ld, m.ldn, m.node), cs)
+				}
+			}
+		}
+		r.Nontrivial(fmt.Sprintf("setterseq|%d", q))
+	}
 }
